@@ -3,6 +3,9 @@ import contextlib
 import copy as pycopy
 import io
 import itertools
+import os
+import shutil
+import tempfile
 
 import canmatrix.canmatrix as cm
 import canmatrix.copy
@@ -31,9 +34,20 @@ RULE = ("case = a history: prelude (2-3 matrices built by add_frame and/or by th
         "(every prefix and suffix of every name of the matrix as pattern, ~340 histories; thorough: for three texts), 1500 (20000) random histories about "
         "names (renamings of the three kinds between lookups by name / identifier, deletions by name, copies, merges; the closing sweep looks up every name "
         "a frame can carry and the patterns themselves), and 750 (10000) of the random / focused histories above with pattern renamings in between. "
-        "The pattern call is executed once by the real code and spelled out for the model as the exact renamings it stands for. Non-trivial = distinct history whose body contains an edit and a lookup follows it.")
+        "The pattern call is executed once by the real code and spelled out for the model as the exact renamings it stands for. "
+        "Files: a matrix from the API beside 2-3 matrices read through the entry points of canmatrix.formats (loads / loads_flat on bytes and text, load / "
+        "load_flat on a file object, loadp / loadp_flat on a path with and without the import type, open + load), the same unchanged file named more than once "
+        "or one path written again between the loads: every body of length 1 for 11 such preludes, 500 (6600) random / focused bodies in which files are "
+        "read again in the middle (every load has to hand out a matrix of its own: fresh frame handles, no edit of another matrix visible). "
+        "Header ids: frame_by_header_id on snapshots (frames with header ids None/0/n) and at the end of 750 (10000) random histories of one matrix - frames added "
+        "(add_frame, reader-style append), deleted (del_frame by object / name, remove_frame), header ids changed through the object, lookups in between, a "
+        "second matrix filled beside it; frames may be PDU containers (Frame.add_pdu; the contained PDUs carry header ids of their own from the same universe, "
+        "which are also asked for) and have identifiers from the universe of the header ids - plus a fixed sweep (288) of one container and one plain frame in "
+        "either order with the requested id on the container, inside it, on the plain frame or nowhere, before and after the plain frame is deleted. "
+        "Non-trivial = distinct history whose body contains an edit and a lookup follows it.")
 EXHAUSTIVE = {"quick": False, "thorough": False}
-PARTIAL = ["frame_by_header_id (a plain scan) is exercised on snapshots of a matrix (case 'hdr'), not inside the edit histories",
+PARTIAL = ["frame_by_header_id (a plain scan) is judged on the matrix at the end of a history of its own (case 'hdr': add / append / delete / remove, header ids "
+           "changed through the frame object, PDU container frames, a second matrix, lookups in between), not inside the histories of the other lookups",
            "frame objects are compared through harness-assigned handles (object identity)"]
 ASSUMPTIONS = ["edits go through the matrix API or through attributes of a frame object; direct mutation of db.frames by the caller "
                "is outside the property (only the readers' own db.frames.append is modelled)",
@@ -154,6 +168,64 @@ def prelude_api(variant):
         ops.append(["byId", m, 0x10, False])
     ops.append(["byId", 0, 0x18FEF100, True])
     return ops, nmats, nobjs
+
+
+VIAS = ["loads_flat", "loads", "loads_str", "load", "load_flat", "loadp", "loadp_flat", "loadp_typed", "open+load"]
+PATH_VIAS = ["loadp", "loadp_flat", "loadp_typed", "open+load"]
+FILE_A = [["A", 0x10, False], ["D", 0x0CFEF102, True], ["C", 0x20, False]]
+FILE_B = [["B", 0x10, False], ["A", 0x18FEF100, True]]
+
+
+def load_op(frames, via, nodes=False, onefile=False):
+    how = {"via": via}
+    if nodes:
+        how["nodes"] = True
+    if onefile:
+        how["onefile"] = True
+    return ["loadMatrix", [list(f) for f in frames], how]
+
+
+def files_prelude(loads, nodes=False, onefile=False):
+    """one matrix built through the API and matrices read from files through the entry points of canmatrix.formats (text, file
+    object, path); loads = [(frames of the file, entry point), ...]: the same file may be named several times (every load has to
+    hand out a matrix of its own), onefile: one path whose content is written again when another text is to be read"""
+    ops = [["newMatrix"], ["newFrame", "A", 0x10, False], ["newFrame", "B", 0x18FEF100, True], ["addFrame", 0, 0], ["addFrame", 0, 1]]
+    nmats, nobjs = 1, 2
+    for frames, via in loads:
+        ops.append(load_op(frames, via, nodes, onefile))
+        nmats += 1
+        nobjs += len(frames)
+    for m in range(nmats):
+        ops.append(["byId", m, 0x10, False])
+        ops.append(["byName", m, "A"])
+    return ops, nmats, nobjs
+
+
+def random_loads(rng):
+    k = rng.random()
+    n = rng.choice([2, 2, 3])
+    if k < 0.6:        # the same file again and again
+        f = rng.choice([FILE_A, FILE_B])
+        files = [f] * n
+    else:
+        files = [rng.choice([FILE_A, FILE_B]) for _ in range(n)]
+    vias = [rng.choice(PATH_VIAS if rng.random() < 0.7 else VIAS) for _ in range(n)]
+    if rng.random() < 0.5:
+        vias = [vias[0]] * n
+    return list(zip(files, vias))
+
+
+def with_reloads(rng, body, nmats, nobjs, loads, nodes, onefile, p=0.15):
+    """the same body; now and then a file of the prelude (or another one) is read again in the middle of the history"""
+    out = []
+    for o in body:
+        if rng.random() < p and nmats + count_new_mats(out) < 7:
+            f, via = rng.choice(loads)
+            if rng.random() < 0.25:
+                f, via = rng.choice([FILE_A, FILE_B]), rng.choice(VIAS)
+            out.append(load_op(f, via, nodes, onefile))
+        out.append(o)
+    return out
 
 
 def alphabet(nmats, nobjs):
@@ -644,6 +716,13 @@ def gen(rng, tier, shard, nshards):
         yield mkcase(pre, focused_body(rng, nmats, nobjs), nmats)
     for _ in range(total // 3 + 1):
         yield gen_hdr(rng)
+    # lookups by header id at the end of edit histories, over matrices with PDU container frames
+    for c in hdr_sweep():
+        k += 1
+        if k % nshards == shard:
+            yield c
+    for _ in range(total // 2 + 1):
+        yield gen_hdr_hist(rng)
     for _ in range(total // 2 + 1):
         yield intflag_case(rng)
     # random and focused histories over marked frames, with edits of the markings (and of other properties of a frame object
@@ -667,6 +746,27 @@ def gen(rng, tier, shard, nshards):
     for _ in range(total // 3):
         pre, nmats, nobjs = prelude(rng.randrange(3), reader_style=True)
         body = random_body(rng, nmats, nobjs, 20) if rng.random() < 0.5 else focused_body(rng, nmats, nobjs)
+        yield mkcase(pre, body, nmats)
+    # files: several matrices read through the entry points of canmatrix.formats (text, file object, path), the same file named more
+    # than once: every body of length 1 (the closing sweep asks every matrix), random and focused bodies with files read again in between
+    for loads in ([(FILE_A, v), (FILE_A, v)] for v in VIAS):
+        pre, nmats, nobjs = files_prelude(loads)
+        for o in alphabet(nmats, nobjs):
+            k += 1
+            if k % nshards == shard:
+                yield mkcase(pre, [list(o)], nmats)
+    for loads, onefile in (([(FILE_A, "loadp_flat"), (FILE_B, "loadp"), (FILE_A, "loadp")], True), ([(FILE_A, "loadp"), (FILE_A, "loads"), (FILE_A, "loadp_typed")], False)):
+        pre, nmats, nobjs = files_prelude(loads, nodes=True, onefile=onefile)
+        for o in alphabet(nmats, nobjs):
+            k += 1
+            if k % nshards == shard:
+                yield mkcase(pre, [list(o)], nmats)
+    for _ in range(total // 3):
+        loads = random_loads(rng)
+        nodes, onefile = rng.random() < 0.3, rng.random() < 0.3
+        pre, nmats, nobjs = files_prelude(loads, nodes, onefile)
+        body = random_body(rng, nmats, nobjs, 20) if rng.random() < 0.4 else focused_body(rng, nmats, nobjs)
+        body = with_reloads(rng, body, nmats, nobjs, loads, nodes, onefile)
         yield mkcase(pre, body, nmats)
     # names: renamings by pattern / by frame object.  A fixed sweep (every prefix and suffix of the names of a matrix as the pattern),
     # random histories about names, and the random / focused histories from above with pattern renamings in between
@@ -703,7 +803,141 @@ def gen_hdr(rng):
     return {"op": "hdr", "c": {"frames": frames, "q": rng.choice([0, 0, 1, 2, 3, 0x123456])}}
 
 
+HIDS = [0, 1, 2, 3, 0x20, 0x21, 0x123456]
+
+
+def gen_hdr_hist(rng):
+    """lookup by header id at the end of an edit history of one matrix (a second matrix alive beside it): frames come (add_frame,
+    reader-style append) and go (del_frame by object / by name, remove_frame), header ids are changed through the frame object,
+    lookups in between; frames may be PDU containers (Frame.add_pdu, as the ARXML reader builds them: the contained PDUs have header
+    ids of their own in Pdu.id) and carry identifiers from the same small universe as the header ids.  The case says which frame
+    objects are in the matrix at the end and which header id each of them has (handle, header id): the shape the driver judges.
+    Contained PDUs, identifiers, the other matrix and the way the matrix got there are not in it - the specification knows
+    frames and their header ids only, i.e. the lookup must answer as if the rest were not there."""
+    nobj = rng.randint(1, 5)
+    hid, pdus, present, hist = {}, {}, [], []
+
+    def some_hid():
+        return rng.choice([None, 0] + HIDS)
+
+    def some_key():
+        pool = list(HIDS)
+        pool += [v for v in hid.values() if v is not None] * 2
+        pool += [i for ps in pdus.values() for i in ps] * 3
+        return rng.choice(pool)
+
+    for h in range(nobj):
+        hid[h] = some_hid()
+        pdus[h] = [rng.choice(HIDS) for _ in range(rng.choice([0, 0, 0, 1, 2, 2, 3]))]
+        aid = rng.choice([h + 1, h + 1, rng.choice(HIDS)])
+        hist.append(["new", h, hid[h], list(pdus[h]), aid, aid > 0x7FF or rng.random() < 0.3])
+    for h in range(nobj):
+        if rng.random() < 0.75:
+            present.append(h)
+            hist.append(["add", h, "append" if rng.random() < 0.25 else "add_frame"])
+    for _ in range(rng.randint(0, 8)):
+        k = rng.random()
+        h = rng.randrange(nobj)
+        if k < 0.30:
+            hist.append(["q", some_key()])
+        elif k < 0.45:
+            if h not in present:
+                present.append(h)
+                hist.append(["add", h, "append" if rng.random() < 0.25 else "add_frame"])
+        elif k < 0.65:
+            if present:
+                h = rng.choice(present)
+                present.remove(h)
+                hist.append(["del", h, rng.choice(["del_frame", "del_name", "remove_frame"])])
+        elif k < 0.80:
+            hid[h] = some_hid()
+            hist.append(["hdr", h, hid[h]])
+        elif k < 0.90:
+            i = rng.choice(HIDS)
+            pdus[h].append(i)
+            hist.append(["pdu", h, i])
+        else:
+            # a frame of another matrix (never in this one): header id and contained PDUs from the same universe
+            hist.append(["other", some_hid(), [rng.choice(HIDS) for _ in range(rng.choice([0, 1, 2]))]])
+    return {"op": "hdr", "c": {"frames": [[h, hid[h]] for h in present], "q": some_key(), "hist": hist,
+                               "pdus": [[h, list(pdus[h])] for h in present if pdus[h]]}}
+
+
+def hdr_sweep():
+    """one container frame and one plain frame in either order, every placement of the requested header id: on the container,
+    inside it, on the plain frame, nowhere; before and after the plain frame is deleted"""
+    for order in ((0, 1), (1, 0)):
+        for chid in (None, 0x10, 0x20):
+            for phid in (None, 0x20, 0x21):
+                for gone in (None, "del_frame", "del_name", "remove_frame"):
+                    for q in (0x10, 0x20, 0x21, 0):
+                        hids = {0: chid, 1: phid}
+                        hist = [["new", 0, chid, [0x20, 0x21], 0x100, False], ["new", 1, phid, [], 0x101, False]]
+                        hist += [["add", h, "add_frame"] for h in order]
+                        present = list(order)
+                        if gone:
+                            hist += [["q", q], ["del", 1, gone]]
+                            present.remove(1)
+                        yield {"op": "hdr", "c": {"frames": [[h, hids[h]] for h in present], "q": q, "hist": hist,
+                                                  "pdus": [[0, [0x20, 0x21]]]}}
+
+
+def observe_hdr_hist(c):
+    db, other = cm.CanMatrix(), cm.CanMatrix()
+    objs = {}
+    nother = 0
+    for st in c["hist"]:
+        k = st[0]
+        if k == "new":
+            fr = cm.Frame("F%d" % st[1], arbitration_id=cm.ArbitrationId(st[4], st[5]), size=64 if st[3] else 8)
+            fr.header_id = st[2]
+            for n, i in enumerate(st[3]):
+                fr.add_pdu(cm.Pdu(name="P%d_%d" % (st[1], n), size=8, id=i))
+            objs[st[1]] = fr
+        elif k == "add":
+            if st[2] == "append":
+                db.frames.append(objs[st[1]])
+            else:
+                db.add_frame(objs[st[1]])
+        elif k == "del":
+            if st[2] == "del_frame":
+                db.del_frame(objs[st[1]])
+            elif st[2] == "del_name":
+                db.del_frame(objs[st[1]].name)
+            else:
+                db.remove_frame(objs[st[1]])
+        elif k == "hdr":
+            objs[st[1]].header_id = st[2]
+        elif k == "pdu":
+            fr = objs[st[1]]
+            fr.add_pdu(cm.Pdu(name="P%d_%d" % (st[1], len(fr.pdus)), size=8, id=st[2]))
+        elif k == "other":
+            fr = cm.Frame("O%d" % nother, arbitration_id=cm.ArbitrationId(0x200 + nother, False), size=64)
+            fr.header_id = st[1]
+            for n, i in enumerate(st[2]):
+                fr.add_pdu(cm.Pdu(name="OP%d_%d" % (nother, n), size=8, id=i))
+            other.add_frame(fr)
+            objs[1000 + nother] = fr
+            nother += 1
+            other.frame_by_header_id(c["q"])
+        elif k == "q":
+            try:
+                db.frame_by_header_id(st[1])
+            except Exception:  # noqa
+                pass
+        else:
+            raise KeyError(k)
+    try:
+        r = db.frame_by_header_id(c["q"])
+    except Exception:  # noqa
+        return {"ret": "raised"}
+    # (a frame object that is none of the history's would be a new kind of answer: -1 is no handle of the case)
+    return {"ret": None if r is None else next((h for h, o in objs.items() if o is r), -1)}
+
+
 def observe_hdr(c):
+    if "hist" in c:
+        return observe_hdr_hist(c)
     db = cm.CanMatrix()
     objs = []
     for h, hid in c["frames"]:
@@ -761,12 +995,63 @@ class Run(object):
         self.mats = []
         self.objs = []
         self.hid = {}
+        self.tmp = None
+        self.files = {}
 
     def reg(self, fr):
         if id(fr) not in self.hid:
             self.hid[id(fr)] = len(self.objs)
             self.objs.append(fr)
         return self.hid[id(fr)]
+
+    def path_of(self, text, onefile):
+        """the file the text is read from: a file of this history's own directory, written once per text and left alone afterwards (who
+        reads the same text again names the same, unchanged file); onefile: one file for every text, written again when the text changes"""
+        if self.tmp is None:
+            self.tmp = tempfile.mkdtemp(prefix="c10-")
+        if onefile:
+            path = os.path.join(self.tmp, "net.dbc")
+            if self.files.get(path) != text:
+                with open(path, "wb") as f:
+                    f.write(text)
+                self.files[path] = text
+            return path
+        if text not in self.files:
+            path = os.path.join(self.tmp, "net%d.dbc" % len(self.files))
+            with open(path, "wb") as f:
+                f.write(text)
+            self.files[text] = path
+        return self.files[text]
+
+    def load(self, text, via, onefile=False):
+        """one matrix from the DBC text through one of the reader entry points of canmatrix.formats"""
+        fm = canmatrix.formats
+        if via == "loads_flat":
+            return fm.loads_flat(text, "dbc")
+        if via == "loads":
+            return fm.loads(text, "dbc")[""]
+        if via == "loads_str":
+            return fm.loads(text.decode(), "dbc", encoding="utf-8")[""]
+        if via == "load":
+            return fm.load(io.BytesIO(text), "dbc")[""]
+        if via == "load_flat":
+            return fm.load_flat(io.BytesIO(text), "dbc")
+        path = self.path_of(text, onefile)
+        if via == "loadp":
+            return fm.loadp(path)[""]
+        if via == "loadp_flat":
+            return fm.loadp_flat(path)
+        if via == "loadp_typed":
+            return fm.loadp(path, "dbc")[""]
+        if via == "open+load":
+            with open(path, "rb") as f:
+                return fm.load(f, "dbc")[""]
+        raise KeyError(via)
+
+    def cleanup(self):
+        if self.tmp is not None:
+            shutil.rmtree(self.tmp, ignore_errors=True)
+            self.tmp = None
 
     def snap(self, m):
         return [[self.reg(f), f.name, f.arbitration_id.id, bool(f.arbitration_id.extended)] for f in self.mats[m].frames]
@@ -807,7 +1092,8 @@ class Run(object):
             return {"h": self.reg(fr)}, None
         if k == "loadMatrix":
             with contextlib.redirect_stdout(io.StringIO()):
-                db = canmatrix.formats.loads_flat(dbc_for(op[1], nodes=bool(side_of(op).get("nodes"))), "dbc")
+                db = self.load(dbc_for(op[1], nodes=bool(side_of(op).get("nodes"))), side_of(op).get("via", "loads_flat"),
+                               bool(side_of(op).get("onefile")))
             self.mats.append(db)
             for f in db.frames:
                 self.reg(f)
@@ -889,17 +1175,20 @@ def observe(case):
     r = Run()
     r.intflag = bool(case["c"].get("intflag"))
     outs, snaps, posts = [], [], []
-    for op in case["c"]["ops"]:
-        r.post = None
-        try:
-            o, s = r.do(op)
-        except (ValueError, AttributeError, IndexError) as e:
-            if isinstance(e, IndexError):
-                raise
-            o, s = "raised", (r.snap(op[1]) if op[0] in ("removeFrame", "delFrame", "delFrameByName") and r.post is not None else None)
-        outs.append(o)
-        snaps.append(s)
-        posts.append(r.post)
+    try:
+        for op in case["c"]["ops"]:
+            r.post = None
+            try:
+                o, s = r.do(op)
+            except (ValueError, AttributeError, IndexError) as e:
+                if isinstance(e, IndexError):
+                    raise
+                o, s = "raised", (r.snap(op[1]) if op[0] in ("removeFrame", "delFrame", "delFrameByName") and r.post is not None else None)
+            outs.append(o)
+            snaps.append(s)
+            posts.append(r.post)
+    finally:
+        r.cleanup()
     return {"outs": outs, "snaps": snaps, "post": posts}
 
 
@@ -913,10 +1202,33 @@ def features(case, impl):
     if case["op"] == "hdr":
         yield "op=byHeaderId"
         yield "header-id-query=%s" % ("0" if case["c"]["q"] == 0 else "other")
+        c = case["c"]
+        if "hist" in c:
+            yield "header-id-lookup=after-a-history"
+            q = c["q"]
+            for st in c["hist"]:
+                if st[0] in ("del", "add", "other", "q", "hdr", "pdu"):
+                    yield "hdr-history=" + st[0] + (":" + st[2] if st[0] in ("del", "add") else "")
+            own = [h for h, v in c["frames"] if v == q]
+            inside = [h for h, ps in c["pdus"] if q in ps]
+            yield "containers-in-matrix=%d" % min(len(c["pdus"]), 2)
+            if inside:
+                pos = {h: n for n, (h, _) in enumerate(c["frames"])}
+                yield "query-is-a-contained-pdu-id:" + ("no-frame-has-it" if not own else "container-is-the-owner" if own[0] in inside else
+                                                        "container-before-the-owner" if min(pos[h] for h in inside) < pos[own[0]]
+                                                        else "container-after-the-owner")
         return
     a, n = case["c"]["body"]
     body = case["c"]["ops"][a:a + n]
     yield "body-len=%s" % (n if n <= 3 else "4-10" if n <= 10 else ">10")
+    seen = []
+    for o in case["c"]["ops"]:
+        if o[0] == "loadMatrix" and "via" in side_of(o):
+            yield "read-through=" + side_of(o)["via"]
+            text = canon_file(o)
+            if text in seen:
+                yield "file-read-again=" + ("same-path-rewritten-in-between" if side_of(o).get("onefile") and seen[-1] != text else "unchanged")
+            seen.append(text)
     for o in body:
         how = side_of(o)
         if how.get("implied"):
@@ -948,6 +1260,10 @@ def features(case, impl):
         yield "frames-marked=" + m
     if not marks:
         yield "frames-marked=none"
+
+
+def canon_file(o):
+    return repr(o[1])
 
 
 def nontrivial(case, impl):
